@@ -13,6 +13,9 @@
 (*     (supports_access_with_origin('nw')); per level TopLeftCorner =      *)
 (*     top-left of tile_bbox(origin_tile(level, 'ul')), ScaleDenominator = *)
 (*     res / 0.00028, MatrixWidth/Height = grid size                       *)
+(*   WMS-C TileSet (wms111capabilities.xml, TILED=true): BoundingBox,      *)
+(*     Resolutions, Width, Height; tiles counted from the lower-left       *)
+(*     corner of the BoundingBox, requested as GetMap TILED=true           *)
 (* Address mapping (service/tile.py _internal_tile_coord): limit_tile,     *)
 (* then flip the row if the request's origin convention differs from the   *)
 (* grid's: TMS and KML count rows from the south, WMTS and ?origin=nw from *)
@@ -82,6 +85,27 @@ Expect(g, originBox, f) ==
   CASE f \in {"wmts", "tms_nw"} -> TRUE       \* TopLeftCorner is published per level from the real top tile row
     [] OTHER -> /\ originBox[1] = g.bbox[1] /\ originBox[2] = g.bbox[2]
                 /\ (~g.ul \/ RowsFill(g))
+
+\* ---- WMS-C (WMS Tiling Client Recommendation) ----
+\* The WMS 1.1.1 capabilities (requested with TILED=true) carry one TileSet per tile layer (wms111capabilities.xml):
+\* BoundingBox = `box` (the code takes the LAYER EXTENT), Resolutions = the resolutions of tile_sets, Width, Height.
+\* A client counts tile (x, y) of resolution number n east and north from the lower-left corner of the BoundingBox
+\* and asks for it with a GetMap TILED=true; the server answers only if the rectangle is exactly one tile of the
+\* grid (CacheMapLayer._check_tiled), otherwise "not a single tile".
+NoRect == <<0, 0, 0, 0>>
+WmscAdvertised(g, box, n) ==
+  LET r == Res(g, TmsLevel(g, n)) IN
+  {<<x, y, n>> : x \in 0 .. CeilDiv(box[3] - box[1], g.tw * r) - 1, y \in 0 .. CeilDiv(box[4] - box[2], g.th * r) - 1}
+ServedWMSC(g, box, a) ==
+  LET c == ClientTMS(<<box[1], box[2]>>, g, a) IN
+  IF \E t \in InGridTiles(g, TmsLevel(g, a[3])) : TileBBox(g, t) = c THEN c ELSE NoRect
+WmscConsistent(g, box) == \A n \in TmsOrders(g) : \A a \in WmscAdvertised(g, box, n) : ServedWMSC(g, box, a) # NoRect
+\* characterisation: the corner of the BoundingBox lies on a tile corner of every level
+WmscExpect(g, box) ==
+  \A n \in TmsOrders(g) :
+    LET r == Res(g, TmsLevel(g, n)) IN
+    /\ (box[1] - g.bbox[1]) % (g.tw * r) = 0
+    /\ IF g.ul THEN (g.bbox[4] - box[2]) % (g.th * r) = 0 ELSE (box[2] - g.bbox[2]) % (g.th * r) = 0
 
 \* same ground tile through different conventions: a south-counted and a north-counted address of the same
 \* level denote the same tile iff their rows mirror each other
